@@ -235,6 +235,9 @@ VIOLATING = [
     ("required-on-key-with-default", lambda e, p, r: e.tag == "key" and e.get("default") is not None,
      set_attr("required", "yes")),
     ("default-attribute-on-multikey", lambda e, p, r: e.tag == "multikey", set_attr("default", "x")),
+    # wave 6: the default= attribute is an un-keyed default too
+    ("default-attribute-on-wildcard-key", lambda e, p, r: e.tag == "key" and e.get("name") == "+" and
+     e.get("default") is None, set_attr("default", "x")),
     ("unkeyed-default-on-wildcard", lambda e, p, r: e.tag in ("key", "multikey") and e.get("name") == "+", op_unkeyed_default),
     ("keyed-default-on-plain-multikey", lambda e, p, r: e.tag == "multikey" and e.get("name") != "+", op_keyed_default),
     ("colliding-wildcard-defaults", lambda e, p, r: e.tag == "key" and e.get("name") == "+" and
